@@ -500,7 +500,7 @@ class Mode:
 
 
 PURE_BUILTINS = {"hex", "getattr", "len", "isinstance", "id", "hasattr", "bool", "tuple", "frozenset", "min", "max", "abs", "callable", "type", "iter", "int"}
-SPEC_FUNCS = {"called", "listof", "intof", "after", "values", "entry", "implies", "old", "call", "call2", "all", "any", "no_dups", "seq", "setof", "filt", "addall", "cat", "forall", "exists",
+SPEC_FUNCS = {"oldfield", "called", "listof", "intof", "after", "values", "entry", "implies", "old", "call", "call2", "all", "any", "no_dups", "seq", "setof", "filt", "addall", "cat", "forall", "exists",
               "is_tuple", "ite", "fresh", "contents", "keys", "dget", "dhas", "rng", "idof", "rev", "prefix", "isinst", "truth",
               "subseq_of", "perm", "count", "sorted_by", "index", "pair", "slice_adj", "typeis", "allocated", "ghost"}
 
@@ -1139,6 +1139,9 @@ def _patch_engine():
         nm = self.pev(node.args[1], st, m)
         if nm.kind != "py" or not isinstance(nm.py, str):
             raise OutOfSubset("getattr with a computed name")
+        if x.kind == "v" and x.hint in CLASSES and self.lookup_field_type(CLASSES[x.hint], nm.py) is not None:
+            self.assumptions.add(f"getattr(obj, {nm.py!r}, default) on a declared slot/field reads the field (the attribute is assumed to be set)")
+            return self.read_field(st, x, nm.py, m)
         f = Function("getattr_" + nm.py, V, V)
         self.assumptions.add(f"getattr(obj, {nm.py!r}, default) is a pure lookup of a class attribute that does not change during the call")
         return SV("v", f(self.to_v(x)), None)
@@ -1198,6 +1201,15 @@ def _patch_engine():
             raise ContractError("entry() outside a loop invariant")
         return self.pev(node.args[0], es.py, Mode(True, m.old, None, m.result, m.binds, m.under))
     E.sf_entry = sf_entry
+
+    def sf_oldfield(self, node, st, m):
+        """oldfield(obj, "f"): field f in the PRE-state of the object that `obj` denotes NOW"""
+        base = self.pev(node.args[0], st, m)
+        name = self.pev(node.args[1], st, m).py
+        if m.old is None:
+            raise ContractError("oldfield() outside a postcondition")
+        return self.read_field(m.old, base, name, m)
+    E.sf_oldfield = sf_oldfield
 
     def sf_called(self, node, st, m):
         """called("callee text"): did that (contract) call happen on this path"""
@@ -1287,7 +1299,7 @@ def _patch_engine():
         lam = node.args[0]
         names = [a.arg for a in lam.args.args]
         vs = [self.fresh(n, V) for n in names]
-        m2 = m.sub(dict(m.binds, **{n: SV("v", v, None) for n, v in zip(names, vs)}))
+        m2 = m.sub(dict(m.binds, **{n: SV("v", v, type_hint(self.types[n])[1] if n in self.types else None) for n, v in zip(names, vs)}))
         return sv_bool(ForAll(vs, self.truth(self.pev(lam.body, st, m2), st), auto=True))
     E.sf_forall = sf_forall
 
@@ -2414,6 +2426,8 @@ def _patch_loops():
             # each(S).f : field f of every member of the sequence S
             sq = self.as_seq(self.pev(node.value.args[0], st, m), st)
             return [(node.attr, ("members", sq))]
+        if isinstance(node, ast.Attribute) and isinstance(node.value, ast.Name) and node.value.id == "any":
+            return [(node.attr, ("any",))]       # any.f : field f of any object (the postcondition has to pin it down)
         if isinstance(node, ast.Attribute):
             base = self.pev(node.value, st, m)
             return [(node.attr, base.t)]
@@ -2439,11 +2453,17 @@ def _patch_loops():
         """formula: object o is NOT the location(s) denoted by a modset spot"""
         if isinstance(obj, tuple) and obj[0] == "members":
             return Not(L.mem(obj[1], o))
+        if isinstance(obj, tuple) and obj[0] == "any":
+            return BoolVal(False)
         return o != obj
     E.spot_excl = spot_excl
 
     def havoc_spot(self, st, nm, obj):
         cur = self.hfield(st, nm)
+        if isinstance(obj, tuple) and obj[0] == "any":
+            h = dict(st.heap)
+            h[nm] = self.fresh("H_" + nm.replace("$", "S_"), cur.sort())
+            return st.copy(heap=h)
         if isinstance(obj, tuple) and obj[0] == "members":
             new = self.fresh("H_" + nm.replace("$", "S_"), cur.sort())
             o = Const("o", V)
